@@ -663,6 +663,30 @@ func SpecMatch(pattern string, hasWild bool, s string) bool {
 // nothing happens and nothing is locked; otherwise the lock capacity equals the number of cached
 // queries and exactly that many unlock promises are made: one query request to the event's
 // subject for every loaded query, one immediate unlock for every query still being loaded.
+// enqueueEvent: an event of the messaging system is queued behind the earlier ones of its
+// resource; in the queued step the event name is what follows "event.<resource name>." in the
+// subject (a subject without a name is discarded); a query event goes to the query handling,
+// once; any other event goes to the plain resource - never to a query variant, nor to a link -
+// once, with that name and the decoded payload; an undecodable payload is discarded as a whole.
+//@ func (*EventSubscription).enqueueEvent
+//@   requires e != nil && e.cache != nil
+//@   ensures[C03] len(e.queue) == old(len(e.queue)) + 1
+//@   assigns e.queue, elems(e.queue)
+//@   safety[C15]
+//@ closure (*EventSubscription).enqueueEvent#1
+//@   requires e != nil
+//@   assumes predEventSubOK(e) && e.cache.mq != nil
+//@   ensures[C13] len(subj) > len(e.ResourceName) + 7 && subj[len(e.ResourceName)+7:] == "query" ==>
+//@       callcount("handleQueryEvent") == old(callcount("handleQueryEvent")) + 1 && callcount("handleEvent") == old(callcount("handleEvent"))
+//@   ensures[C03,C15] len(subj) <= len(e.ResourceName) + 7 ==>
+//@       callcount("handleQueryEvent") == old(callcount("handleQueryEvent")) && callcount("handleEvent") == old(callcount("handleEvent"))
+//@   ensures[C03,C13] len(subj) > len(e.ResourceName) + 7 && subj[len(e.ResourceName)+7:] != "query" ==> callcount("handleQueryEvent") == old(callcount("handleQueryEvent")) &&
+//@       callcount("handleEvent") <= old(callcount("handleEvent")) + 1
+//@   ensures[C03,C13] old(e.base) == nil || old(e.base.query) != "" ==> callcount("handleEvent") == old(callcount("handleEvent"))
+//@   assert[C01,C03,C13] e.base.handleEvent#1: arg0.Event == subj[len(e.ResourceName)+7:] && arg0.Event != "query" && e.base.query == ""
+//@   assert[C01,C15] e.base.handleEvent#1: err == nil && arg0.Payload == ev
+//@   safety[C15]
+
 //@ func (*EventSubscription).handleQueryEvent
 //@   requires e != nil && e.cache != nil && e.cache.mq != nil
 //@   assumes predEventSubOK(e)
